@@ -172,7 +172,7 @@ theorem contains_iff_mem (τ : Tol K) (D : Dom K) : ∀ (pts ρ : Env K) (b : Bo
     simp only [contains, containsAux] at h
     split at h
     · rename_i x tx hp ht
-      have := ih _ ρ r hs (hnd.1 x tx hp ht) h
+      have := ih _ _ r hs (hnd.1 x tx hp ht) h
       rw [this]; simp only [mem]
       constructor
       · intro hm; exact Or.inl ⟨x - tx, x, tx, hp, ht, by ring, hm⟩
@@ -185,7 +185,7 @@ theorem contains_iff_mem (τ : Tol K) (D : Dom K) : ∀ (pts ρ : Env K) (b : Bo
         · rw [hp] at hp'; simp at hp'
         · rw [hp] at hp'; simp at hp'
     · rename_i x y tx ty hp ht
-      have := ih _ ρ r hs (hnd.2.1 x y tx ty hp ht) h
+      have := ih _ _ r hs (hnd.2.1 x y tx ty hp ht) h
       rw [this]; simp only [mem]
       constructor
       · intro hm; exact Or.inr (Or.inl ⟨x - tx, y - ty, x, y, tx, ty, hp, ht, by ring, by ring, hm⟩)
@@ -199,7 +199,7 @@ theorem contains_iff_mem (τ : Tol K) (D : Dom K) : ∀ (pts ρ : Env K) (b : Bo
           rw [a1, a2]; exact hm
         · rw [hp] at hp'; simp at hp'
     · rename_i x y z tx ty tz hp ht
-      have := ih _ ρ r hs (hnd.2.2 x y z tx ty tz hp ht) h
+      have := ih _ _ r hs (hnd.2.2 x y z tx ty tz hp ht) h
       rw [this]; simp only [mem]
       constructor
       · intro hm; exact Or.inr (Or.inr ⟨x - tx, y - ty, z - tz, x, y, z, tx, ty, tz, hp, ht, by ring, by ring, by ring, hm⟩)
@@ -220,7 +220,7 @@ theorem contains_iff_mem (τ : Tol K) (D : Dom K) : ∀ (pts ρ : Env K) (b : Bo
     split at h
     · rename_i x y m00 m01 m10 m11 cx cy hp hm hc
       obtain ⟨hdet, hnd'⟩ := hnd x y m00 m01 m10 m11 cx cy hp hm hc
-      have := ih _ ρ r hs hnd' h
+      have := ih _ _ r hs hnd' h
       rw [this]; simp only [mem]
       constructor
       · intro hmem
@@ -350,30 +350,34 @@ theorem bdry_tri_accepts (τ : Tol K) (hτ : τ.ok) (v : String) (o c1 c2 : PFun
     (ho : o.f (pts ++ ρ) = [ox, oy]) (h1 : c1.f (pts ++ ρ) = [ax, ay]) (h2 : c2.f (pts ++ ρ) = [bx, cy])
     (hdet : (ax - ox) * (cy - oy) - (ay - oy) * (bx - ox) ≠ 0)
     (hp : pts.get v = some [ox + s * (ax - ox) + t * (bx - ox), oy + s * (ay - oy) + t * (cy - oy)])
-    (hedge : (s = 0 ∧ 0 ≤ t ∧ t ≤ 1) ∨ (t = 0 ∧ 0 ≤ s ∧ s ≤ 1) ∨ (s + t = 1)) :
+    (hedge : (s = 0 ∧ 0 ≤ t ∧ t ≤ 1) ∨ (t = 0 ∧ 0 ≤ s ∧ s ≤ 1) ∨ (s + t = 1 ∧ 0 ≤ s ∧ 0 ≤ t)) :
     bdryContains τ (.tri v o c1 c2) pts ρ = some true := by
   simp only [bdryContains, containsAux, hp, ho, h1, h2, if_true]
   rw [solveLgs_fst _ _ _ _ _ _ s t hdet (by ring) (by ring)]
   simp only [Option.some.injEq, Bool.or_eq_true, Bool.and_eq_true, le_iff]
-  rcases hedge with ⟨rfl, ht0, ht1⟩ | ⟨rfl, hs0, hs1⟩ | hst
+  rcases hedge with ⟨rfl, ht0, ht1⟩ | ⟨rfl, hs0, hs1⟩ | ⟨hst, hs0, ht0⟩
   · left; left; exact ⟨isclose_self_bary τ hτ 0, ht0, ht1⟩
   · left; right; exact ⟨isclose_self_bary τ hτ 0, hs0, hs1⟩
-  · right; rw [hst]; exact isclose_self_bary τ hτ 1
+  · right
+    refine ⟨by rw [hst]; exact isclose_self_bary τ hτ 1, ?_, ?_⟩ <;> linarith [hτ.2.2]
 
-/-- triangle boundary: an accepted point has `s`, `t` or `s + t − 1` within the tolerance of 0 -/
+/-- triangle boundary: an accepted point has `s`, `t` within the tolerance of 0, or `s + t − 1` within the
+    tolerance of 0 **and** lies between the corners of the third edge (`s, t ≥ −tolerance`): the rest of the
+    line through corner_1 and corner_2 is rejected -/
 theorem bdry_tri_rejects (τ : Tol K) (v : String) (o c1 c2 : PFun K) (pts ρ : Env K)
     (x y ox oy ax ay bx cy : K) (hp : pts.get v = some [x, y])
     (ho : o.f (pts ++ ρ) = [ox, oy]) (h1 : c1.f (pts ++ ρ) = [ax, ay]) (h2 : c2.f (pts ++ ρ) = [bx, cy])
     (h : bdryContains τ (.tri v o c1 c2) pts ρ = some true) :
     let b := solveLgs (x - ox) (y - oy) (ax - ox) (ay - oy) (bx - ox) (cy - oy)
-    |b.1| ≤ τ.batol ∨ |b.2| ≤ τ.batol ∨ |b.1 + b.2 - 1| ≤ τ.batol + τ.rtol := by
+    (|b.1| ≤ τ.batol ∧ 0 ≤ b.2 ∧ b.2 ≤ 1) ∨ (|b.2| ≤ τ.batol ∧ 0 ≤ b.1 ∧ b.1 ≤ 1) ∨
+      (|b.1 + b.2 - 1| ≤ τ.batol + τ.rtol ∧ -τ.batol ≤ b.1 ∧ -τ.batol ≤ b.2) := by
   simp only [bdryContains, containsAux, hp, ho, h1, h2, if_true, Option.some.injEq, Bool.or_eq_true,
-    Bool.and_eq_true, isclose_iff, Tol.bary] at h
+    Bool.and_eq_true, isclose_iff, Tol.bary, le_iff] at h
   simp only [abs_one, mul_one, abs_zero, mul_zero, add_zero, sub_zero] at h
-  rcases h with (⟨h, _⟩ | ⟨h, _⟩) | h
-  · exact Or.inl h
-  · exact Or.inr (Or.inl h)
-  · exact Or.inr (Or.inr h)
+  rcases h with (⟨h, h'⟩ | ⟨h, h'⟩) | ⟨h, h'⟩
+  · exact Or.inl ⟨h, h'⟩
+  · exact Or.inr (Or.inl ⟨h, h'⟩)
+  · exact Or.inr (Or.inr ⟨h, h'⟩)
 
 theorem normClose_iff (τ : Tol K) (d2 r : K) :
     normClose τ d2 r = true ↔
